@@ -79,13 +79,18 @@ Section sim.
            (forall ck, snd ck <> [] -> lb ck = None -> alookup ck_eqb ck (v_regs x') = alookup ck_eqb ck (v_regs x)) /\
            (exists hnew, v_hist x' = hnew ++ v_hist x /\ Forall2 hrel (rev hnew) (fst (g (v_time x)))) /\
            v_time x' = snd (g (v_time x))).
-    destruct (set_eqb _ _) eqn:Eset.
+    destruct (set_eqb _ _ && entry_unchanged st st1) eqn:Eset.
     - (* the direct loop *)
-      inversion HT; subst cs st'; clear HT. cbn [with_stable t_stable] in HSt. apply andb_prop in HSt as [Hst1 Hstable].
-      assert (SECOND : 2 <= count -> exists st1', tr_nodes body (with_label st1 (idx + 1)) = Ok (cs1, st1') /\ t_stable st1' = true).
-      { intros H2. assert (E : (count <=? 1) = false) by lia. rewrite E in Hstable.
-        destruct (tr_nodes body (with_label st1 (idx + 1))) as [[cs1' st1']|]; [|discriminate].
-        apply andb_prop in Hstable as [X Y]. apply cmds_same_eq in X. subst cs1'. eauto. }
+      inversion HT; subst cs st'; clear HT. pose proof HSt as Hst1.
+      apply andb_prop in Eset as [_ Hun]. destruct (entry_unchanged_spec _ _ Hun) as (UA & UP & UD).
+      assert (BACK : forall x, Inv3 lb I st1 x -> Inv3 lb I st x).
+      { intros x (A & P & D). split; [|split].
+        - intros ch k Hk. apply A. apply UA. exact Hk.
+        - intros ch v Hv. destruct (UP ch v Hv) as (v1 & E & Q1). destruct (P ch v1 E) as (r & R1 & R2). exists r. split; auto.
+          rewrite R2. exact Q1.
+        - intros ch k b olds HK Hdp. destruct (UD (ch, k) b olds Hdp) as (b1 & E & Q1).
+          destruct (D ch k b1 olds HK E) as (r & R1 & R2). exists r. split; auto. intros fs Hf Hk.
+          rewrite (R2 fs Hf Hk), SI1. apply aff_at_compat. exact Q1. }
       set (Pinv := fun (k : nat) (x : vm) =>
              length (v_cur x) = C /\ (k = 0%nat -> Inv3 lb I st x) /\ (k <> 0%nat -> Inv3 lb I st1 x) /\
              (forall ck, snd ck <> [] -> lb ck = None -> alookup ck_eqb ck (v_regs x) = alookup ck_eqb ck (v_regs s)) /\
@@ -110,14 +115,8 @@ Section sim.
         { destruct k as [|k].
           - exists str, st1. split; [exact E1|]. split; [exact Hst1|]. split; [reflexivity|]. split; [reflexivity|].
             split; [exact (X2 eq_refl)|]. auto.
-          - destruct SECOND as (st1' & E1' & Hst1'); [lia|].
-            exists (with_label st1 (idx + 1)), st1'. split; auto. split; auto. split; auto. split; auto.
-            split; [apply X3; lia|]. intros x' HI'.
-            pose proof (nodes_summ body _ _ _ E1') as [S1' _].
-            destruct (same_post body str st1 (with_label st1 (idx + 1)) st1' S1 S1') as (QA & QP & QD & QI); auto.
-            eapply Inv3_transfer; [| | | |exact HI']; auto.
-            + intros ch; apply oqeq_sym; apply QP.
-            + intros ch k0 HK. symmetry. apply QD; auto. }
+          - exists str, st1. split; [exact E1|]. split; [exact Hst1|]. split; [reflexivity|]. split; [reflexivity|].
+            split; [apply BACK; apply X3; lia|]. auto. }
         destruct PASS as (sx & sx' & Ex & Hsx' & Hlx & Hix & (PA & PP & PD) & Hback).
         assert (Q1 : length (t_iters sx) = d) by congruence.
         assert (Q2 : dyn_ok (t_iters sx) I) by (rewrite Hix; auto).
